@@ -7,6 +7,7 @@ import (
 	"fmt"
 	"go/types"
 	"os"
+	"runtime"
 	"runtime/debug"
 	"sort"
 	"strings"
@@ -204,6 +205,7 @@ func (w *Worker) resetPath(j *Job) {
 	w.stackDesc = w.stackDesc[:0]
 	w.pathReach = w.pathReach[:0]
 	w.observes = w.observes[:0]
+	w.pathViol = 0
 }
 
 // replaying reports whether the path is still inside its decision prefix (obligations there were
@@ -287,7 +289,7 @@ func (e *Engine) worker(helper bool) {
 				for _, id := range w.pathReach {
 					e.res.Reached[id]++
 				}
-				if len(e.res.Witnesses) < 2 && len(w.pathReach) > 0 {
+				if len(e.res.Witnesses) < 2 && len(w.pathReach) > 0 && w.pathViol == 0 {
 					e.mu.Unlock()
 					wv := w.makeViolation("witness", "")
 					e.mu.Lock()
@@ -303,6 +305,10 @@ func (e *Engine) worker(helper bool) {
 		}
 		if e.cfg.Verbose {
 			fmt.Fprintf(os.Stderr, "[path %d] %s %s decs=%d steps=%d pc=%d\n", e.res.Paths, end.kind, end.msg, len(w.decs), w.steps, len(w.pc))
+		}
+		if e.res.Paths%64 == 0 && memoryExceeded() && !e.stopAll {
+			e.res.Inconclusive = append(e.res.Inconclusive, "budget: process memory above the limit; exploration stopped")
+			e.stopAll = true
 		}
 		if e.cfg.MaxPaths > 0 && e.res.Paths >= e.cfg.MaxPaths && (len(e.queue) > 0 || e.inflight > 0) {
 			e.res.Inconclusive = append(e.res.Inconclusive, fmt.Sprintf("budget: more than %d paths", e.cfg.MaxPaths))
@@ -353,6 +359,13 @@ func (w *Worker) violationFromModel(kind, id string, m map[string]uint64) Violat
 		}
 	}
 	return v
+}
+
+// memoryExceeded: the Go heap of the engine is above 20 GB (checks must end as INCONCLUSIVE, not be OOM-killed)
+func memoryExceeded() bool {
+	var ms runtime.MemStats
+	runtime.ReadMemStats(&ms)
+	return ms.HeapAlloc > 20<<30
 }
 
 // RunTask explores one harness (with concrete shard arguments) completely.
